@@ -72,6 +72,8 @@ def run():
     for i in range(1500 if QUICK else 120000):
         a = gen.random_abstract(rng, N=rng.randint(2, 7), K=rng.randint(1, 3), max_edges=10, nsites=0, nmuts=0,
                                 p_internal_sample=rng.choice([0.15, 0.5]))
+        if i % 2:
+            a = gen.permute_nodes(a, rng)       # node ids in no particular order (parents with smaller ids than their children)
         tb_ = gen.build_tables(dict(a, sites=[], muts=[]))
         if rng.random() < 0.4:
             gen.add_user_flags(tb_, rng)
@@ -84,6 +86,38 @@ def run():
         if all(x == -1 for x in g):
             continue
         cases.append(call(tree, g, A, rng.choice([None] + list(range(A))), rng))
+    # one Tree object used again after it has been moved: the result must be that of the tree it is on now, for the same arguments
+    nhist = 0
+    for i in range(300 if QUICK else 20000):
+        a = gen.random_abstract(rng, N=rng.randint(4, 7), K=rng.randint(2, 4), max_edges=12, nsites=0, nmuts=0, p_internal_sample=0.15)
+        if i % 2:
+            a = gen.permute_nodes(a, rng)
+        ts = gen.build_tables(dict(a, sites=[], muts=[])).tree_sequence()
+        if ts.num_samples == 0 or ts.num_trees < 2:
+            continue
+        A = rng.randint(2, 3)
+        g = [rng.choice(list(range(A)) + [-1] * (i % 3 == 0)) for _ in range(ts.num_samples)]
+        if all(x == -1 for x in g):
+            continue
+        fixed = rng.choice([None] + list(range(A)))
+        state = rng.getstate()
+        tree = tskit.Tree(ts)
+        tree.first()
+        for step in range(rng.randint(2, 5)):
+            mv = rng.choice(["next", "prev", "seek_index", "seek", "first", "last"])
+            if mv == "seek_index":
+                tree.seek_index(rng.randrange(ts.num_trees))
+            elif mv == "seek":
+                tree.seek(rng.random() * ts.sequence_length * 0.999)
+            else:
+                getattr(tree, mv)()
+            if tree.index == -1:
+                tree.first()
+            here = random.Random(12345 + i)          # identical embedding and argument forms for every call of this history
+            c_ = call(tree, g, A, fixed, here)
+            c_["history"] = 1
+            cases.append(c_)
+            nhist += 1
     # wide trees: a node with hundreds of children (counters per allele must not wrap), as a star and as a forest of isolated samples
     wide = []
     for _ in range(6 if QUICK else 60):
